@@ -1,4 +1,4 @@
-import Sqfs.Proofs.Obj
+import Sqfs.Proofs.ObjConstruct
 import Sqfs.Proofs.ObjKinds
 /-!
 C19 — copies of library objects are well-formed, equivalent, independent and safely destroyable.
@@ -10,15 +10,6 @@ Every `theorem` below is an obligation.
 -/
 namespace Sqfs.C19
 open Sqfs.Obj Sqfs.Obj.Kinds
-
-/-- A hook description is well-formed when the hook writes the object header, gives the copy its own buffers,
-re-derives every internal pointer, holds every reference either by a grab or through a deep copy, and — when it
-sizes a fresh buffer by the used part only — belongs to a kind that records that size. -/
-def WfDesc (d : CopyDesc) : Prop :=
-  d.header ≠ .zeroed ∧ (∀ a ∈ d.bufs, a ≠ .alias) ∧ (∀ v ∈ d.views, v.1 = .repoint) ∧ (∀ r ∈ d.refs, r ≠ .alias) ∧
-  (.trim ∈ d.bufs → d.capAware = true) ∧ d.onFail = .unwind
-
-instance (d : CopyDesc) : Decidable (WfDesc d) := by unfold WfDesc; infer_instance
 
 /-- every kind's (repaired) hook description is well-formed -/
 theorem desc_wellformed : ∀ k : Kind, WfDesc (desc k) := by
@@ -63,9 +54,132 @@ theorem copy_equiv_idTable (t : IdTable) (ops : List IdOp) : idRun (idCopy t) op
 theorem copy_equiv_fragTable (t : FragTable) (ops : List FragOp) : fragRun (fragCopy t) ops = fragRun t ops :=
   fragRun_data ops _ _ rfl
 
+/-! ### safely destroyable, no leak: reference-count soundness
+
+`Balanced h U` (`Sqfs.Proofs.ObjBal`): every live object has both hooks and a reference count equal to the number
+of references that exist to it (`U x` held by the user + slots of live objects), nothing refers to a freed object,
+every live buffer has exactly one owner, internal pointers point into the owner's buffers. -/
+
+/-- `copy_balanced`: `sqfs_copy` of any live object of a balanced heap through the (repaired) hooks succeeds (no
+allocation failure injected), yields a fresh object, and the heap is balanced again with the user holding exactly
+one reference to the copy — for every kind, every object graph, every history that led to `h`. -/
+theorem copy_balanced (n : Nat) (h : Heap) (U : Nat → Nat) (o : Nat)
+    (hb : Balanced h U) (hbud : h.budget = none) (hl : (h.objs o).isSome) (hn : o < n) :
+    ∃ h' c, sqfsCopy desc n h o = (h', some c) ∧ h.objs c = none ∧ U c = 0 ∧
+      Balanced h' (fun y => if y = c then 1 else U y) := by
+  obtain ⟨h', c, he, hb', _, hfresh⟩ := sqfsCopy_bal desc desc_wellformed n h U [] [] o hb hbud hl hn
+  have hnone : h.objs c = none := by
+    cases hv : h.objs c with
+    | none => rfl
+    | some _ => have := hb.bound c (by simp [hv]); omega
+  have hU : U c = 0 := (hb.dead c (Or.inl hnone)).1
+  refine ⟨h', c, he, hnone, hU, ?_⟩
+  have := hb'.pendingToUser
+  rw [hU] at this
+  exact this
+
+/-- `release_safe`: the user releases references in **any order and interleaving** (`ds` lists the objects
+dropped, each at most as often as it is held): `sqfs_drop` never calls a NULL hook, never touches or destroys a
+freed object, never frees a buffer twice (the heap does not crash), and the heap stays balanced for what is
+still held. With `copy_balanced` this covers original and copy in either order. -/
+theorem release_safe (n : Nat) (h : Heap) (U : Nat → Nat) (ds : List Nat)
+    (hb : Balanced h U) (hc : ∀ x, ds.count x ≤ U x) (hn : ∀ x ∈ ds, x < n) :
+    (ds.foldl (drop n) h).crash = none ∧ Balanced (ds.foldl (drop n) h) (fun x => U x - ds.count x) :=
+  have := Bal.dropAll n ds hb hc hn
+  ⟨this.ok, this⟩
+
+/-- both release orders of original and copy, spelled out -/
+theorem release_safe_either_order (n : Nat) (h : Heap) (U : Nat → Nat) (o c : Nat)
+    (hb : Balanced h U) (ho : 1 ≤ U o) (hc : 1 ≤ U c) (hne : o ≠ c) (hon : o < n) (hcn : c < n) :
+    (drop n (drop n h o) c).crash = none ∧ (drop n (drop n h c) o).crash = none ∧
+    Balanced (drop n (drop n h o) c) (fun x => U x - [o, c].count x) ∧
+    Balanced (drop n (drop n h c) o) (fun x => U x - [c, o].count x) := by
+  have cnt : ∀ x, [o, c].count x ≤ U x ∧ [c, o].count x ≤ U x := by
+    intro x
+    by_cases h1 : x = o
+    · subst h1
+      have : ¬ c = x := fun e => hne e.symm
+      simp [List.count_cons, this, ho]
+    · by_cases h2 : x = c
+      · subst h2; simp [List.count_cons, hne, hc]
+      · have e1 : ¬ o = x := fun e => h1 e.symm
+        have e2 : ¬ c = x := fun e => h2 e.symm
+        simp [List.count_cons, e1, e2]
+  have h1 := release_safe n h U [o, c] hb (fun x => (cnt x).1) (by simp [hon, hcn])
+  have h2 := release_safe n h U [c, o] hb (fun x => (cnt x).2) (by simp [hon, hcn])
+  exact ⟨h1.1, h2.1, h1.2, h2.2⟩
+
+/-- `no_leak`: once every reference the user held has been released, no object and no buffer is left -/
+theorem no_leak (n : Nat) (h : Heap) (U : Nat → Nat) (ds : List Nat)
+    (hb : Balanced h U) (hc : ∀ x, ds.count x = U x) (hn : ∀ x ∈ ds, x < n) :
+    (∀ x, (ds.foldl (drop n) h).objs x = none) ∧ (∀ b, (ds.foldl (drop n) h).bufs b = none) :=
+  (release_safe n h U ds hb (fun x => Nat.le_of_eq (hc x)) hn).2.empty_of_no_refs (fun x => by simp [hc x])
+
+/-- reference counts are exact at every moment: in a balanced heap an object's count is the number of references
+the user holds plus the number of slots of live objects that point to it — so the grabs a copy took on the shared
+file and compressor are gone exactly when the copy is -/
+theorem refcount_exact (h : Heap) (U : Nat → Nat) (x : Nat) (ox : Obj) (hb : Balanced h U) (hx : h.objs x = some ox) :
+    ox.rc = U x + refCount h [] x ∧ ox.destroy = true ∧ ox.copy = true := by
+  obtain ⟨h1, h2, h3, _, _, _⟩ := hb.live x ox hx (by simp)
+  exact ⟨by simpa using h3, h1, h2⟩
+
+/-- `copy_independent`: in a balanced heap — in particular after `copy_balanced` — the owned buffers of two
+different objects are disjoint, so any sequence of stores through the slots and internal pointers of one object
+leaves what the other can observe of its buffers unchanged (and the heap balanced). -/
+theorem copy_independent (h : Heap) (U : Nat → Nat) (x y : Nat) (ox oy : Obj) (ws : List (Nat × Nat))
+    (hb : Balanced h U) (hx : h.objs x = some ox) (hy : h.objs y = some oy) (hne : x ≠ y) :
+    view (writes h x ws) y = view h y ∧ Balanced (writes h x ws) U ∧ (writes h x ws).crash = none := by
+  obtain ⟨h1, h2, _⟩ := writes_independent ws hb hx hy hne
+  exact ⟨h2, h1, h1.ok⟩
+
+/-- owned buffers of distinct live objects are disjoint -/
+theorem copy_buffers_disjoint (h : Heap) (U : Nat → Nat) (x y b : Nat) (ox oy : Obj)
+    (hb : Balanced h U) (hx : h.objs x = some ox) (hy : h.objs y = some oy) (hne : x ≠ y)
+    (hbx : some b ∈ ox.bufs) : some b ∉ oy.bufs :=
+  hb.bufs_disjoint hx hy (by simp) (by simp) hne hbx
+
+/-- the empty heap is balanced, and every constructor (`sqfs_*_create`, modelled by `construct`) keeps the heap
+balanced with the caller holding one reference to the new object: the theorems above apply to every heap the
+library builds from constructors, grabs, copies and drops -/
+theorem constructed_balanced (k : Kind) (h : Heap) (U : Nat → Nat) (file cmp : Nat)
+    (hb : Balanced h U) (hf : (h.objs file).isSome) (hc : (h.objs cmp).isSome) :
+    Balanced (construct h k file cmp).1
+      (fun y => if y = (construct h k file cmp).2 then U (construct h k file cmp).2 + 1 else U y) :=
+  (construct_bal k hb hf hc).pendingToUser
+
+/-- `sqfs_grab` by the user keeps the heap balanced -/
+theorem grab_balanced (h : Heap) (U : Nat → Nat) (x : Nat) (hb : Balanced h U) (hx : (h.objs x).isSome) :
+    Balanced (grab h x) (fun y => if y = x then U x + 1 else U y) := by
+  obtain ⟨ox, hox⟩ := Option.isSome_iff_exists.mp hx
+  exact (hb.grabbed hox (by simp)).pendingToUser
+
 /-! non-vacuity -/
 example : ∃ h h' c, sqfsCopy desc 3 h 0 = (h', some c) ∧ (h.objs 0).isSome :=
   ⟨(construct Heap.empty .idTable 0 0).1, _, _, rfl, rfl⟩
+/-- the user's file and compressor (objects 0 and 1), each held once -/
+def envHeap : Heap := (newObj (newObj Heap.empty .file [] [] []).1 .gzip [] [] []).1
+
+theorem envHeap_balanced : ∃ U, Balanced envHeap U ∧ U 0 = 1 ∧ U 1 = 1 := by
+  have b1 := (Bal.newObj (P := []) (PB := []) .file [] [] [] (by simpa using Balanced.empty) (by simp) (by simp)).pendingToUser
+  have b2 := (Bal.newObj (P := []) (PB := []) .gzip [] [] [] (by simpa using b1) (by simp) (by simp)).pendingToUser
+  exact ⟨_, b2, by decide, by decide⟩
+
+/-- the hypotheses of `copy_balanced` / `release_safe` / `copy_independent` are satisfiable: a directory reader over
+the user's file and compressor (the reader is object 4 and owns the meta readers 2 and 3) -/
+example : ∃ h U, Balanced h U ∧ h.budget = none ∧ (h.objs 4).map (·.refs) = some [some 2, some 3] ∧ U 4 = 1 ∧ U 0 = 1 := by
+  obtain ⟨U, hb, h0, h1⟩ := envHeap_balanced
+  have b3 := constructed_balanced .dirReader envHeap U 0 1 hb (by decide) (by decide)
+  refine ⟨_, _, b3, rfl, by decide, ?_, ?_⟩
+  · have e : (construct envHeap .dirReader 0 1).2 = 4 := by decide
+    have hU4 : U 4 = 0 := (hb.dead 4 (Or.inl (by decide))).1
+    simp [e, hU4]
+  · have e : (construct envHeap .dirReader 0 1).2 = 4 := by decide
+    simp [e, h0]
+
+/-- … and copying that reader, then releasing original and copy in either order, is covered -/
+example : ∃ h' c, sqfsCopy desc 64 (construct envHeap .dirReader 0 1).1 4 = (h', some c) ∧ c = 7 := by
+  exact ⟨_, _, rfl, by decide⟩
+
 example : idRun (idCopy ⟨128, [5, 7]⟩) [.add 7, .add 9, .get 2] = [(0, 1), (0, 2), (0, 9)] := by decide
 
 end Sqfs.C19
